@@ -4,6 +4,7 @@ from core import Case, Failure
 import rvasmgen
 
 PROP = "C04"
+CONSTS = ['ops', 'asm']          # constant tables of the models this property depends on
 RULE = ("source texts rendered from abstract programs (real + pseudo instructions, stand-alone and in-line labels incl. on "
         "expanding pseudo-instructions and at the end, forward/backward references, label+hex offset, numeric targets, with/"
         "without segment directives) under independent spelling choices (ABI/xN, mnemonic case, dec/hex/bin/sign, both memory "
